@@ -894,3 +894,157 @@ Proof.
     destruct (T m o Hm) as [w [Fw [_ G]]]. rewrite !mapR_cons, G, IH.
     replace (member_value ps vals Double m) with (mesh_value Double w) by (unfold member_value; rewrite Fw; reflexivity). reflexivity.
 Qed.
+
+(* ================= faces with per-corner texture coordinates ================= *)
+(* each field of the reader state evolves on its own *)
+Lemma step_points k ip tp lt ws st :
+  fs_points (face_step k ip tp lt ws st) = if Nat.eqb k ip then Z.of_nat (length ws) else fs_points st.
+Proof.
+  unfold face_step. destruct (Nat.eqb k ip), (4 <? Z.of_nat (length ws))%Z, (nat_eqb_opt tp k), (8 <? Z.of_nat (length ws))%Z, lt; reflexivity.
+Qed.
+Lemma step_ibuf k ip tp lt ws st :
+  fs_ibuf (face_step k ip tp lt ws st) =
+  if Nat.eqb k ip && negb (4 <? Z.of_nat (length ws))%Z && index_ty_ok lt
+  then overwrite (map signed32 ws) (fs_ibuf st) else fs_ibuf st.
+Proof.
+  unfold face_step. destruct (Nat.eqb k ip), (4 <? Z.of_nat (length ws))%Z, (nat_eqb_opt tp k), (8 <? Z.of_nat (length ws))%Z, lt; reflexivity.
+Qed.
+Lemma step_tbuf k ip tp lt ws st :
+  fs_tbuf (face_step k ip tp lt ws st) =
+  if nat_eqb_opt tp k && negb (8 <? Z.of_nat (length ws))%Z
+  then match lt with Float => overwrite (map cvF ws) (fs_tbuf st) | Double => overwrite ws (fs_tbuf st) | _ => fs_tbuf st end
+  else fs_tbuf st.
+Proof.
+  unfold face_step. destruct (Nat.eqb k ip), (4 <? Z.of_nat (length ws))%Z, (nat_eqb_opt tp k), (8 <? Z.of_nat (length ws))%Z, lt; reflexivity.
+Qed.
+
+Section Fold.
+Variables (ip tk : nat).
+Let tp := Some tk.
+
+Lemma fold_points_after : forall rs f k st, (ip < k)%nat -> fs_points (face_fold rs f k ip tp st) = fs_points st.
+Proof.
+  induction rs as [|[ct lt] rs IH]; intros f k st Hk; [reflexivity|]. destruct f as [|ws f]; [reflexivity|].
+  cbn [face_fold]. rewrite IH by lia. rewrite step_points.
+  replace (Nat.eqb k ip) with false by (symmetry; apply Nat.eqb_neq; lia). reflexivity.
+Qed.
+Lemma fold_points : forall rs f k st ct lt, (k <= ip)%nat -> length f = length rs ->
+  nth_error rs (ip - k) = Some (ct, lt) ->
+  fs_points (face_fold rs f k ip tp st) = Z.of_nat (length (nth (ip - k) f [])).
+Proof.
+  induction rs as [|[ct0 lt0] rs IH]; intros f k st ct lt Hk L N.
+  - destruct (ip - k)%nat; discriminate.
+  - destruct f as [|ws f]; [discriminate|]. cbn [face_fold].
+    destruct (Nat.eq_dec k ip) as [->|Hne].
+    + rewrite Nat.sub_diag. cbn [nth]. rewrite fold_points_after by lia. rewrite step_points, Nat.eqb_refl. reflexivity.
+    + replace (ip - k)%nat with (S (ip - S k)) in * by lia. cbn [nth_error nth] in *.
+      apply (IH f (S k) _ ct lt); [lia | simpl in L; lia | exact N].
+Qed.
+
+Lemma fold_ibuf_after : forall rs f k st, (ip < k)%nat -> fs_ibuf (face_fold rs f k ip tp st) = fs_ibuf st.
+Proof.
+  induction rs as [|[ct lt] rs IH]; intros f k st Hk; [reflexivity|]. destruct f as [|ws f]; [reflexivity|].
+  cbn [face_fold]. rewrite IH by lia. rewrite step_ibuf.
+  replace (Nat.eqb k ip) with false by (symmetry; apply Nat.eqb_neq; lia). reflexivity.
+Qed.
+Lemma fold_ibuf : forall rs f k st ct lt, (k <= ip)%nat -> length f = length rs ->
+  nth_error rs (ip - k) = Some (ct, lt) -> index_ty_ok lt = true -> (length (nth (ip - k) f []) <= 4)%nat ->
+  fs_ibuf (face_fold rs f k ip tp st) = overwrite (map signed32 (nth (ip - k) f [])) (fs_ibuf st).
+Proof.
+  induction rs as [|[ct0 lt0] rs IH]; intros f k st ct lt Hk L N I L4.
+  - destruct (ip - k)%nat; discriminate.
+  - destruct f as [|ws f]; [discriminate|]. cbn [face_fold].
+    destruct (Nat.eq_dec k ip) as [->|Hne].
+    + rewrite Nat.sub_diag in *. cbn [nth_error nth] in *. injection N as -> ->.
+      rewrite fold_ibuf_after by lia. rewrite step_ibuf, Nat.eqb_refl, I.
+      replace (4 <? Z.of_nat (length ws))%Z with false by (symmetry; apply Z.ltb_ge; lia). reflexivity.
+    + replace (ip - k)%nat with (S (ip - S k)) in * by lia. cbn [nth_error nth] in *.
+      rewrite (IH f (S k) _ ct lt); [|lia | simpl in L; lia | exact N | exact I | exact L4].
+      rewrite step_ibuf. replace (Nat.eqb k ip) with false by (symmetry; apply Nat.eqb_neq; exact Hne). reflexivity.
+Qed.
+
+Lemma fold_tbuf_after : forall rs f k st, (tk < k)%nat -> fs_tbuf (face_fold rs f k ip tp st) = fs_tbuf st.
+Proof.
+  induction rs as [|[ct lt] rs IH]; intros f k st Hk; [reflexivity|]. destruct f as [|ws f]; [reflexivity|].
+  cbn [face_fold]. rewrite IH by lia. rewrite step_tbuf. unfold tp. cbn [nat_eqb_opt].
+  replace (Nat.eqb tk k) with false by (symmetry; apply Nat.eqb_neq; lia). reflexivity.
+Qed.
+Lemma fold_tbuf : forall rs f k st ct lt, (k <= tk)%nat -> length f = length rs ->
+  nth_error rs (tk - k) = Some (ct, lt) -> (length (nth (tk - k) f []) <= 8)%nat ->
+  fs_tbuf (face_fold rs f k ip tp st) = overwrite (map (tex_value lt) (nth (tk - k) f [])) (fs_tbuf st) \/
+  (lt <> Float /\ lt <> Double).
+Proof.
+  induction rs as [|[ct0 lt0] rs IH]; intros f k st ct lt Hk L N L8.
+  - destruct (tk - k)%nat; discriminate.
+  - destruct f as [|ws f]; [discriminate|]. cbn [face_fold].
+    destruct (Nat.eq_dec k tk) as [->|Hne].
+    + rewrite Nat.sub_diag in *. cbn [nth_error nth] in *. injection N as -> ->.
+      rewrite fold_tbuf_after by lia. rewrite step_tbuf. unfold tp. cbn [nat_eqb_opt]. rewrite Nat.eqb_refl.
+      replace (8 <? Z.of_nat (length ws))%Z with false by (symmetry; apply Z.ltb_ge; lia). cbn [negb andb].
+      destruct lt; try (right; split; discriminate); left; try reflexivity.
+      unfold tex_value. rewrite map_id. reflexivity.
+    + replace (tk - k)%nat with (S (tk - S k)) in * by lia. cbn [nth_error nth] in *.
+      destruct (IH f (S k) (face_step k ip tp lt0 ws st) ct lt) as [E|E]; [lia | simpl in L; lia | exact N | exact L8 | |right; exact E].
+      left. rewrite E, step_tbuf. unfold tp. cbn [nat_eqb_opt].
+      replace (Nat.eqb tk k) with false by (symmetry; apply Nat.eqb_neq; lia). reflexivity.
+Qed.
+End Fold.
+
+(* what face_out makes of the buffers *)
+Lemma face_out_tex ws ts st :
+  (length ws = 3%nat /\ length ts = 6%nat) \/ (length ws = 4%nat /\ length ts = 8%nat) ->
+  fs_points st = Z.of_nat (length ws) ->
+  fs_ibuf st = overwrite ws [0; 0; 0; 0]%Z \/ (exists old, length old = 4%nat /\ fs_ibuf st = overwrite ws old) ->
+  (exists oldt, length oldt = 8%nat /\ fs_tbuf st = overwrite ts oldt) ->
+  face_out true st = Ok (fan_tris ws, fan (pairs ts) []).
+Proof.
+  intros H P I [oldt [Lt T]].
+  assert (I' : exists old, length old = 4%nat /\ fs_ibuf st = overwrite ws old)
+    by (destruct I as [I|I]; [exists [0; 0; 0; 0]%Z; split; [reflexivity|exact I]|exact I]).
+  destruct I' as [old [Lo Ib]]. unfold face_out. rewrite P, Ib, T.
+  destruct H as [[Lw Lts]|[Lw Lts]].
+  - destruct ws as [|a [|b [|c [|? ?]]]]; try discriminate Lw.
+    destruct ts as [|t0 [|t1 [|t2 [|t3 [|t4 [|t5 [|? ?]]]]]]]; try discriminate Lts. reflexivity.
+  - destruct ws as [|a [|b [|c [|d [|? ?]]]]]; try discriminate Lw.
+    destruct ts as [|t0 [|t1 [|t2 [|t3 [|t4 [|t5 [|t6 [|t7 [|? ?]]]]]]]]]; try discriminate Lts. reflexivity.
+Qed.
+
+Lemma overwrite_length {A} (new old : list A) : (length new <= length old)%nat -> length (overwrite new old) = length old.
+Proof. intros H. unfold overwrite. rewrite app_length, skipn_length. lia. Qed.
+
+Theorem quad_fan_tex_bin_proof : forall e rs ip tk ct lt ctt ltt (fs : list (list (list N))) rest st,
+  nth_error rs ip = Some (ct, lt) -> index_ty_ok lt = true ->
+  nth_error rs tk = Some (ctt, ltt) -> (ltt = Float \/ ltt = Double) ->
+  length (fs_ibuf st) = 4%nat -> length (fs_tbuf st) = 8%nat ->
+  Forall (tex_face_ok rs ip tk) fs ->
+  faces_bin e rs ip (Some tk) (flat_map (enc_face_bin e rs) fs ++ rest) (length fs) st =
+  Ok (flat_map (fun f => fan_tris (map signed32 (nth ip f []))) fs,
+      flat_map (fun f => fan (pairs (map (tex_value ltt) (nth tk f []))) []) fs).
+Proof.
+  intros e rs ip tk ct lt ctt ltt fs rest st N I Nt Ft Li Lt F. revert st Li Lt.
+  induction F as [|f fs [F2 L34] F IH]; intros st Li Lt; [reflexivity|].
+  cbn [length flat_map faces_bin]. rewrite <- app_assoc.
+  rewrite (face_bin_enc e ip (Some tk) rs f 0 st _ F2). cbn [rbind].
+  pose proof (Forall2_length' _ _ _ F2) as L.
+  set (st' := face_fold rs f 0 ip (Some tk) st).
+  assert (P : fs_points st' = Z.of_nat (length (nth ip f []))).
+  { unfold st'. rewrite (fold_points ip tk rs f 0 st ct lt); [rewrite Nat.sub_0_r; reflexivity|lia|exact L|rewrite Nat.sub_0_r; exact N]. }
+  assert (Ib : fs_ibuf st' = overwrite (map signed32 (nth ip f [])) (fs_ibuf st)).
+  { unfold st'. rewrite (fold_ibuf ip tk rs f 0 st ct lt); [rewrite Nat.sub_0_r; reflexivity|lia|exact L|rewrite Nat.sub_0_r; exact N|exact I|].
+    rewrite Nat.sub_0_r. destruct L34 as [[-> _]|[-> _]]; lia. }
+  assert (Tb : fs_tbuf st' = overwrite (map (tex_value ltt) (nth tk f [])) (fs_tbuf st)).
+  { unfold st'. destruct (fold_tbuf ip tk rs f 0 st ctt ltt) as [E|[E1 E2]];
+      [lia|exact L|rewrite Nat.sub_0_r; exact Nt| | |].
+    - rewrite Nat.sub_0_r. destruct L34 as [[_ ->]|[_ ->]]; lia.
+    - rewrite Nat.sub_0_r in E. exact E.
+    - destruct Ft; congruence. }
+  rewrite (face_out_tex (map signed32 (nth ip f [])) (map (tex_value ltt) (nth tk f [])) st').
+  - cbn [rbind]. rewrite IH.
+    + cbn [rbind]. reflexivity.
+    + fold st'. rewrite Ib, overwrite_length; [exact Li|]. rewrite map_length, Li. destruct L34 as [[-> _]|[-> _]]; lia.
+    + fold st'. rewrite Tb, overwrite_length; [exact Lt|]. rewrite map_length, Lt. destruct L34 as [[_ ->]|[_ ->]]; lia.
+  - rewrite !map_length. exact L34.
+  - rewrite map_length. exact P.
+  - right. exists (fs_ibuf st). split; [exact Li|exact Ib].
+  - exists (fs_tbuf st). split; [exact Lt|exact Tb].
+Qed.
